@@ -43,7 +43,7 @@ mod verif_in_handle {
 
     const NOP: refdec::Exp<'static> = refdec::NO_PROPS;
 
-    //@ h name=op_publish_q1 props=C05,C06,C11,C16 tier=off cap=small to=1200
+    //@ h name=op_publish_q1 props=C05,C06,C11,C16 tier=off cap=small to=2400 mem=45
     //@ claim: publish(QoS 1) for any value of the shared identifier counter: never panics; queues exactly one AwaitAck message whose bytes are one well-formed PUBLISH (DUP=0, QoS 1, requested retain/topic/payload) carrying a non-zero packet identifier and whose action id is (PUBACK<<24)|(id<<8); stays Pending (and queues nothing more) when polled again before the answer; completes only after its own response channel is answered; PUBACK reason < 0x80 gives Ok, >= 0x80 gives PubackError carrying that reason; the counter advances to a different non-zero identifier
     //@ bounds: counter any u16 (including 0 and 65535); retain symbolic; topic "t", payload "x"; every legal PUBACK reason code
     //@ funcs: ContextHandle::publish (QoS 1 branch), PublishOpts::packet_identifier, tx_action_id, PubackError::from
@@ -60,7 +60,7 @@ mod verif_in_handle {
         let reason = reason.unwrap();
         let mut cx = cx();
         {
-            let mut fut = Box::pin(handle.publish(PublishOpts::new().topic_name("t").payload(b"x").qos(QoS::AtLeastOnce).retain(retain)));
+            let mut fut = core::pin::pin!(handle.publish(PublishOpts::new().topic_name("t").payload(b"x").qos(QoS::AtLeastOnce).retain(retain)));
             assert!(fut.as_mut().poll(&mut cx).is_pending(), "pending until acknowledged");
             let msg = match next_msg(&mut queue) {
                 Some(ContextMessage::AwaitAck(m)) => m,
@@ -91,7 +91,6 @@ mod verif_in_handle {
             kani::cover!(rb >= 0x80, "failing PUBACK");
             kani::cover!(rb == 0x10, "PUBACK 0x10 (no matching subscribers) is success");
             kani::cover!(c == 65535, "last identifier before wrap-around");
-            core::mem::forget(fut);
         }
         core::mem::forget(handle);
         core::mem::forget(queue);
@@ -111,7 +110,7 @@ mod verif_in_handle {
         kani::assume(rec.is_ok() && comp.is_ok());
         let mut cx = cx();
         {
-            let mut fut = Box::pin(handle.publish(PublishOpts::new().topic_name("t").qos(QoS::ExactlyOnce)));
+            let mut fut = core::pin::pin!(handle.publish(PublishOpts::new().topic_name("t").qos(QoS::ExactlyOnce)));
             assert!(fut.as_mut().poll(&mut cx).is_pending(), "pending until PUBREC");
             let msg = match next_msg(&mut queue) {
                 Some(ContextMessage::AwaitAck(m)) => m,
@@ -155,13 +154,12 @@ mod verif_in_handle {
                 kani::cover!(r2 >= 0x80, "failing PUBCOMP");
                 kani::cover!(r1 == 0x10 && r2 == 0, "successful handshake");
             }
-            core::mem::forget(fut);
         }
         core::mem::forget(handle);
         core::mem::forget(queue);
     }
 
-    //@ h name=op_publish_q0 props=C06,C12 tier=off cap=small to=900
+    //@ h name=op_publish_q0 props=C06,C12 tier=off cap=small to=2400 mem=45
     //@ claim: publish(QoS 0): one FireAndForget message with one well-formed PUBLISH (QoS 0, no identifier, DUP=0); completes with exactly the result the context sends (Ok once written, MaximumPacketSizeExceeded when refused) and not before
     //@ bounds: retain symbolic; both answers
     //@ funcs: ContextHandle::publish (QoS 0 branch)
@@ -173,7 +171,7 @@ mod verif_in_handle {
         let refuse: bool = kani::any();
         let mut cx = cx();
         {
-            let mut fut = Box::pin(handle.publish(PublishOpts::new().topic_name("t").payload(b"x").retain(retain)));
+            let mut fut = core::pin::pin!(handle.publish(PublishOpts::new().topic_name("t").payload(b"x").retain(retain)));
             assert!(fut.as_mut().poll(&mut cx).is_pending(), "pending until the context answered");
             let msg = match next_msg(&mut queue) {
                 Some(ContextMessage::FireAndForget(m)) => m,
@@ -192,7 +190,6 @@ mod verif_in_handle {
                 _ => panic!("completes with the context's answer"),
             }
             kani::cover!(refuse, "refused");
-            core::mem::forget(fut);
         }
         core::mem::forget(handle);
         core::mem::forget(queue);
@@ -214,7 +211,7 @@ mod verif_in_handle {
         kani::assume(code.is_ok());
         let mut cx = cx();
         {
-            let mut fut = Box::pin(handle.subscribe(SubscribeOpts::new().subscription("a/b", SubscriptionOpts::new())));
+            let mut fut = core::pin::pin!(handle.subscribe(SubscribeOpts::new().subscription("a/b", SubscriptionOpts::new())));
             assert!(fut.as_mut().poll(&mut cx).is_pending(), "pending until SUBACK");
             let msg = match next_msg(&mut queue) {
                 Some(ContextMessage::Subscribe(m)) => m,
@@ -243,7 +240,6 @@ mod verif_in_handle {
             }
             kani::cover!(rb >= 0x80, "refused subscription");
             kani::cover!(s == 0x0fff_ffff, "largest subscription identifier");
-            core::mem::forget(fut);
             core::mem::forget(msg.stream);
         }
         core::mem::forget(handle);
@@ -266,7 +262,7 @@ mod verif_in_handle {
             let rb: u8 = kani::any();
             let code = UnsubackReason::try_from(rb);
             kani::assume(code.is_ok());
-            let mut fut = Box::pin(handle.unsubscribe(UnsubscribeOpts::new().topic_filter("a/b")));
+            let mut fut = core::pin::pin!(handle.unsubscribe(UnsubscribeOpts::new().topic_filter("a/b")));
             assert!(fut.as_mut().poll(&mut cx).is_pending(), "pending until UNSUBACK");
             let msg = match next_msg(&mut queue) {
                 Some(ContextMessage::AwaitAck(m)) => m,
@@ -288,9 +284,8 @@ mod verif_in_handle {
                 _ => panic!("completes with the UNSUBACK"),
             }
             kani::cover!(c == 0xffff, "opt: unsubscribe at the last identifier");
-            core::mem::forget(fut);
         } else if which == 1 {
-            let mut fut = Box::pin(handle.ping());
+            let mut fut = core::pin::pin!(handle.ping());
             assert!(fut.as_mut().poll(&mut cx).is_pending(), "pending until PINGRESP");
             let msg = match next_msg(&mut queue) {
                 Some(ContextMessage::AwaitAck(m)) => m,
@@ -301,12 +296,11 @@ mod verif_in_handle {
             assert!(fut.as_mut().poll(&mut cx).is_pending() && next_msg(&mut queue).is_none(), "spurious poll has no effect");
             assert!(msg.response_channel.send(Ok(RxPacket::Pingresp(PingrespRx {}))).is_ok(), "listening");
             assert!(matches!(fut.as_mut().poll(&mut cx), Poll::Ready(Ok(()))), "completes on PINGRESP");
-            core::mem::forget(fut);
         } else {
             let rb: u8 = kani::any();
             let reason = DisconnectReason::try_from(rb);
             kani::assume(reason.is_ok());
-            let mut fut = Box::pin(handle.disconnect(DisconnectOpts::new().reason(reason.unwrap())));
+            let mut fut = core::pin::pin!(handle.disconnect(DisconnectOpts::new().reason(reason.unwrap())));
             assert!(fut.as_mut().poll(&mut cx).is_pending(), "pending until written");
             let msg = match next_msg(&mut queue) {
                 Some(ContextMessage::FireAndForget(m)) => m,
@@ -317,7 +311,6 @@ mod verif_in_handle {
             assert!(d.is_ok() && d.unwrap().0 == rb, "one well-formed DISCONNECT with the requested reason");
             assert!(msg.response_channel.send(Ok(())).is_ok(), "listening");
             assert!(matches!(fut.as_mut().poll(&mut cx), Poll::Ready(Ok(()))), "completes with the context's answer");
-            core::mem::forget(fut);
         }
         kani::cover!(which == 0, "unsubscribe");
         kani::cover!(which == 1, "ping");
